@@ -29,7 +29,7 @@ func runC15(c *core.Check) {
 	consts := map[string]string{"MaxK": "1", "BaseMode": "\"few\"", "MaxPos": "5"}
 	c15.Brief = c.Tier == "quick"
 	if c.Tier == "thorough" {
-		consts = map[string]string{"MaxK": "1", "BaseMode": "\"all\"", "MaxPos": "11"}
+		consts = map[string]string{"MaxK": "1", "BaseMode": "\"mid\"", "MaxPos": "11"}
 	}
 	c.Extra["constants"] = consts
 	// the peeker protocol (Peeker.tla) is model-checked, every parse below is checked against it through the
@@ -45,7 +45,7 @@ func runC15(c *core.Check) {
 		sample = 4000
 	}
 	c15.StartPeekerRecording(sample, 5000)
-	streamTLC(c, core.TLCRun{Module: "MC_C15", Consts: consts, Timeout: minutes(40), KeepVars: []string{"e", "dmg"}},
+	streamTLC(c, core.TLCRun{Module: "MC_C15", Parts: 4, Consts: consts, Timeout: minutes(40), KeepVars: []string{"e", "dmg"}},
 		func(st core.State) { c15.Handle(c, st) })
 	c15.FinishPeekerRecording(c)
 }
